@@ -69,8 +69,11 @@ func Weave(cfg Config) (map[string]string, *Stats, error) {
 		return nil, nil, fmt.Errorf("load: %w", err)
 	}
 	for _, p := range cfg.Packages {
-		rel := strings.TrimPrefix(p.Path, "./")
-		byPath["github.com/glyphlang/glyph/"+rel] = p
+		if strings.HasPrefix(p.Path, "./") {
+			byPath["github.com/glyphlang/glyph/"+strings.TrimPrefix(p.Path, "./")] = p
+		} else {
+			byPath[p.Path] = p // a dependency, given by import path
+		}
 	}
 	for _, pkg := range pkgs {
 		if len(pkg.Errors) > 0 {
@@ -88,7 +91,10 @@ func Weave(cfg Config) (map[string]string, *Stats, error) {
 			if err != nil {
 				return nil, nil, fmt.Errorf("%s: %w", name, err)
 			}
-			rel, _ := filepath.Rel(cfg.Repo, name)
+			rel, err := filepath.Rel(cfg.Repo, name)
+			if err != nil || strings.HasPrefix(rel, "..") {
+				rel = filepath.Join("ext", pkg.PkgPath, filepath.Base(name))
+			}
 			out := filepath.Join(cfg.Out, "woven", rel)
 			if err := os.MkdirAll(filepath.Dir(out), 0o755); err != nil {
 				return nil, nil, err
@@ -673,7 +679,10 @@ func (w *weaver) rewriteCall(call *ast.CallExpr, fail func(ast.Node, string, ...
 		if m == "Do" {
 			return w.rt("OnceDo", recv, call.Args[0], s("once"))
 		}
-	case "sync.Cond", "sync.Map", "sync.Pool":
+	case "sync.Pool":
+		// Get/Put never block and carry no ordering the simulation depends on: left as is
+		return nil
+	case "sync.Cond", "sync.Map":
 		fail(call, "%s is not modelled by the simulator runtime", tname)
 	case "time.Timer":
 		switch m {
